@@ -1,14 +1,14 @@
 """C05 - graph optimisation preserves meaning and terminates."""
 from ..report import Check
 from ..kernels.base import run_kernel
-from ..kernels import c05_optimizer, c05_driver
+from ..kernels import c05_optimizer, c05_driver, c06_graph
 from .. import frame
 
 
 def run(tier, seed):
     chk = Check("C05", tier, seed, "other")
     from ..kernels import c01_shapes
-    for k in c05_optimizer.KERNELS + c05_driver.KERNELS + [q for q in c01_shapes.KERNELS if q.id in ("C01.P.shape_transpose", "C01.P.shape_set_shape")]:  # the shape kernels discharge the 'static shape is sound' precondition of the lemmas
+    for k in c05_optimizer.KERNELS + c05_driver.KERNELS + [q for q in c06_graph.KERNELS if q.prop == "C05"] + [q for q in c01_shapes.KERNELS if q.id in ("C01.P.shape_transpose", "C01.P.shape_set_shape")]:  # the shape kernels discharge the 'static shape is sound' precondition of the lemmas
         chk.add_kernel(run_kernel(k, tier))
     ok, sites, failing = frame.rule_subterm()
     chk.add_rule("C05.S.subterm", ok, sites, failing)
